@@ -21,5 +21,6 @@ Definition law_model (op : Z) : option (list bool) :=
   | 14 => Some [true]
   | 15 => Some [true; true]
   | 16 => Some [true; true; true; true]
+  | 17 => Some [true; true; true; true]      (* pairing_with_decoded_identity: G1 / G2 x Validate::Yes / No *)
   | _ => None
   end.
